@@ -864,6 +864,16 @@ func (env *specEnv) evalCall(t *ast.CallExpr) Value {
 			if !ok {
 				env.fail("no method %s on %s", sel.Sel.Name, typeKey(recv.T))
 			}
+			// interface value of statically known dynamic type (built by a conversion in this function):
+			// call the concrete method
+			if len(recv.C) == 2 && recv.C[0].IsConst() && recv.C[0].sort.K == SInt {
+				if ct, ok := eng.typeByID[recv.C[0].val.Int64()]; ok && len(shapeOf(ct)) == 1 {
+					if cfn := eng.lookupMethod(ct, sel.Sel.Name); cfn != nil && len(cfn.Blocks) > 0 {
+						cargs := append([]Value{{T: ct, C: []*Term{recv.C[1]}}}, args[1:]...)
+						return env.callGo(cfn, cargs)
+					}
+				}
+			}
 			key := ifaceMethodKey(recv.T, mf)
 			c := eng.cs.Funcs[key]
 			if c == nil || !c.Pure {
